@@ -27,8 +27,8 @@ Contexts == {[role |-> "admin", mut |-> TRUE,  rc |-> TRUE,  principal |-> TRUE]
 
 ShapeRowsOf(t) ==
   {[tool |-> t, role |-> c.role, mut |-> c.mut, rc |-> c.rc, principal |-> c.principal,
-    actor |-> (IF s \in ActorShapes THEN "different" ELSE "absent"), shape |-> s,
-    lab |-> ShapeLab(t, IF s \in ActorShapes THEN "different" ELSE "absent", s)] :
+    actor |-> (IF s \in ActorShapes \cup {"proxy_actor"} THEN "different" ELSE "absent"), shape |-> s,
+    lab |-> ShapeLab(t, IF s \in ActorShapes \cup {"proxy_actor"} THEN "different" ELSE "absent", s)] :
      s \in {x \in Shapes \ {"minimal"} : ShapeApplies(t, x)}, c \in Contexts}
 ShapeRows == UNION {ShapeRowsOf(t) : t \in AllTools}
 
@@ -59,7 +59,7 @@ TypeOK ==
   /\ row.actor \in Actors /\ row.shape \in Shapes /\ ShapeApplies(row.tool, row.shape)
   /\ row.lab.path \in PathClasses /\ row.lab.pid \in PathClasses /\ row.lab.actor \in Actors
   /\ row.lab.mode \in Modes /\ row.lab.extra \in BOOLEAN /\ row.lab.valid \in BOOLEAN
-  /\ row.lab.wire \in {"object", "absent", "nonobject"}
+  /\ row.lab.wire \in {"object", "absent", "nonobject"} /\ row.lab.backend \in {"sqlite", "proxy"}
 
 A(r, role, mut, rc, p, a) == Allowed(r.tool, role, mut, rc, p, a)
 Here(r) == A(r, r.role, r.mut, r.rc, r.principal, r.actor)
